@@ -9,6 +9,7 @@ import (
 	"sort"
 	"strings"
 	"testing"
+	"time"
 
 	"pgregory.net/rapid"
 
@@ -398,6 +399,12 @@ func TestC19_Service(t *testing.T) {
 					seed, pass = mi.seed, mi.pass
 				}
 				newpw := rapid.SampledFrom([]string{"", "newpw"}).Draw(t, "newpw")
+				if rapid.IntRange(0, 7).Draw(t, "clock_moves") == 3 {
+					// wallets carry a creation time in whole seconds: let the clock pass a second boundary now and then,
+					// so that "the same time stamp" is not true by accident
+					time.Sleep(1100 * time.Millisecond)
+					r.Count("recover_after_a_second")
+				}
 				fd, disarm := arm(t, id)
 				_, err := s.RecoverWallet(id, seed, pass, []byte(newpw))
 				disarm()
